@@ -151,6 +151,11 @@ C04_Between(E, R) ==
         /\ (E[x].ro # None /\ IndexOf(s, E[x].ro) # 0 => IndexOf(s, E[x].ro) > i)
 C01_DepClosed(E, R) == \A x \in Units(R.lst) : Deps(E, x) \subseteq Have(R)
 C05_DeadExact(E, R) == R.dead = ExpectedDead(E, R.lst, R.gone, R.ddel)
+(* C04, first sentence, for sequence containers: an element is tombstoned exactly when a deletion of it *)
+(* (explicit, or implied by the removal of a container it lives in) has been received                 *)
+C04_AppearsIff(E, R) ==
+  LET exp == ExpectedDead(E, R.lst, R.gone, R.ddel)
+  IN \A c \in DOMAIN R.lst : ~Keyed(E, R.lst[c]) => \A x \in Range(R.lst[c]) : (x \in R.dead) <=> (x \in exp)
 (* causal last-writer-wins: SEEN[y] = elements of y's own map-entry chain that y's creator had      *)
 (* integrated when it created y.  An entry that causally follows another one lies to its right, so  *)
 (* the visible (right-most) entry is never causally followed by another delivered write of that key *)
